@@ -2,6 +2,7 @@ package dawn
 
 import (
 	"math/rand/v2"
+	"path/filepath"
 	"sort"
 	"strings"
 
@@ -17,6 +18,87 @@ func defaultGenOpts(tier string) genOpts {
 		o.MaxMods = 4
 	}
 	return o
+}
+
+// shapeOverlap picks a target with two dependencies x, y (in that order), makes x quick and y
+// slow (in both copies of the spec) and returns the target's label, x's label and the plain
+// source files of y: a build in which x fails finds y still busy.
+func shapeOverlap(r *rand.Rand, shadow, spec *projSpec) (string, string, []string) {
+	var cands []int
+	for ti := range shadow.Targets {
+		if len(shadow.Targets[ti].Deps) >= 2 && shadow.target(shadow.Targets[ti].Deps[0]) != nil && shadow.target(shadow.Targets[ti].Deps[1]) != nil {
+			cands = append(cands, ti)
+		}
+	}
+	if len(cands) == 0 {
+		// make one: an early target gains two later ones as its first dependencies
+		n := len(shadow.Targets)
+		if n < 3 {
+			return "", "", nil
+		}
+		i := r.IntN(n - 2)
+		j := i + 1 + r.IntN(n-i-2)
+		k := j + 1 + r.IntN(n-j-1)
+		lj, lk := shadow.Targets[j].label(), shadow.Targets[k].label()
+		if shadow.reaches(&shadow.Targets[j], &shadow.Targets[i]) || shadow.reaches(&shadow.Targets[k], &shadow.Targets[i]) || shadow.reaches(&shadow.Targets[k], &shadow.Targets[j]) {
+			return "", "", nil
+		}
+		li := shadow.Targets[i].label()
+		for _, l := range []string{li, lj, lk} {
+			if spec.target(l) == nil {
+				return "", "", nil // a target the history adds later: the initial spec cannot be shaped
+			}
+		}
+		for _, sp := range []*projSpec{shadow, spec} {
+			t := sp.target(li)
+			var deps []string
+			var spell []int
+			for d, l := range t.Deps {
+				if l != lj && l != lk {
+					deps = append(deps, l)
+					if d < len(t.DepSpell) {
+						spell = append(spell, t.DepSpell[d])
+					} else {
+						spell = append(spell, 0)
+					}
+				}
+			}
+			t.Deps = append([]string{lj, lk}, deps...)
+			t.DepSpell = append([]int{0, 0}, spell...)
+		}
+		cands = []int{i}
+	}
+	t := &shadow.Targets[cands[r.IntN(len(cands))]]
+	x, y := shadow.target(t.Deps[0]), shadow.target(t.Deps[1])
+	if x == y || shadow.reaches(y, x) || spec.target(x.label()) == nil || spec.target(y.label()) == nil || spec.target(t.label()) == nil {
+		return "", "", nil
+	}
+	plain := func() []string {
+		var files []string
+		for _, s := range y.Sources {
+			if rel := shadow.sourceRel(y, s); shadow.Files[rel] != "" && !strings.HasPrefix(shadow.Files[rel], linkMark) && shadow.generatorOf(rel) == nil {
+				files = append(files, rel)
+			}
+		}
+		sort.Strings(files)
+		return files
+	}
+	files := plain()
+	if len(files) == 0 {
+		// give y a source file of its own
+		name := "ovl_" + y.Name + ".txt"
+		for _, sp := range []*projSpec{shadow, spec} {
+			ty := sp.target(y.label())
+			ty.Sources = append(ty.Sources, name)
+			sp.Files[filepath.Join(pkgDir(ty.Pkg), name)] = "content of " + name + " v0\n"
+		}
+		files = plain()
+	}
+	for _, sp := range []*projSpec{shadow, spec} {
+		sp.target(x.label()).Yields = 0
+		sp.target(y.label()).Yields = 14
+	}
+	return t.label(), x.label(), files
 }
 
 func pickLabel(r *rand.Rand, p *projSpec) string {
@@ -74,33 +156,11 @@ func c01Gen(r *rand.Rand, tier string) any {
 				// watch mode: a target's first dependency fails while a later one is still
 				// busy; the build fails, a source of the busy one is edited right after the
 				// build returned, and the same process builds again
-				var cands []int
-				for ti := range shadow.Targets {
-					if len(shadow.Targets[ti].Deps) >= 2 && shadow.target(shadow.Targets[ti].Deps[0]) != nil && shadow.target(shadow.Targets[ti].Deps[1]) != nil {
-						cands = append(cands, ti)
-					}
-				}
-				if len(cands) > 0 {
-					t := &shadow.Targets[cands[r.IntN(len(cands))]]
-					x, y := shadow.target(t.Deps[0]), shadow.target(t.Deps[1])
-					var files []string
-					for _, s := range y.Sources {
-						if rel := shadow.sourceRel(y, s); shadow.Files[rel] != "" && !strings.HasPrefix(shadow.Files[rel], linkMark) {
-							files = append(files, rel)
-						}
-					}
-					if len(files) > 0 && x != y && !shadow.reaches(y, x) {
-						// the failing one is quick, the other slow (the spec itself is adjusted)
-						for _, sp := range []*projSpec{shadow, sc.Spec} {
-							sp.target(x.label()).Yields = 0
-							sp.target(y.label()).Yields = 3
-						}
-						sort.Strings(files)
-						ed := opSpec{Op: "edit-source", Path: files[r.IntN(len(files))], N: 1000 + i}
-						shadow.applySpecEdit(&ed)
-						op.Label, op.Fail, op.Always = t.label(), []string{x.label()}, false
-						op.Twice, op.Between = true, &ed
-					}
+				if tl, xl, files := shapeOverlap(r, shadow, sc.Spec); tl != "" && len(files) > 0 {
+					ed := opSpec{Op: "edit-source", Path: files[r.IntN(len(files))], N: 1000 + i}
+					shadow.applySpecEdit(&ed)
+					op.Label, op.Fail, op.Always = tl, []string{xl}, true // forced, so that x and y both run
+					op.Twice, op.Between = true, &ed
 				}
 			}
 			if r.IntN(14) == 0 && op.Between == nil {
